@@ -70,6 +70,27 @@ func genC03(kind string) func(r *core.Rng) any {
 			p = genPath(r, pathOpts{Kinds: kQuad | kCube, MaxSegs: 3, MaxSubs: 2, Closed: 2, Scale: scale})
 		case "circular-arcs":
 			p = genPath(r, pathOpts{Kinds: kArc | kLine, MaxSegs: 3, MaxSubs: 2, Closed: 2, CircArcs: true, Scale: scale})
+		case "rotated-circular-arcs":
+			// circular arcs that carry a rotation in their record, as Transform leaves them after a
+			// rotation (the builder stores 0 for circles); the geometry does not depend on it
+			p = genPath(r, pathOpts{Kinds: kArc | kLine, MaxSegs: 3, MaxSubs: 2, Closed: 2, CircArcs: true, Scale: scale})
+			d := dataCopy(p)
+			for i := 0; i < len(d); {
+				n := 4
+				switch d[i] {
+				case 4:
+					n = 6
+				case 8:
+					n = 8
+				case 16:
+					n = 8
+					if d[i+1] == d[i+2] {
+						d[i+3] = r.Range(0, math.Pi)
+					}
+				}
+				i += n
+			}
+			p = canvas.NewPathFromData(d)
 		case "elliptic-arcs":
 			p = genPath(r, pathOpts{Kinds: kArc, MaxSegs: 3, MaxSubs: 2, Closed: 2, MaxRatio: 300, Scale: scale})
 		case "mild-elliptic-arcs":
@@ -344,6 +365,7 @@ func init() {
 			{Name: "s-cubics", Quick: 1500, Thorough: 30000, Gen: genC03("s-cubics")},
 			{Name: "chord-cubics", Quick: 1000, Thorough: 20000, Gen: genC03("chord-cubics")},
 			{Name: "circular-arcs", Quick: 1500, Thorough: 30000, Gen: genC03("circular-arcs")},
+			{Name: "rotated-circular-arcs", Quick: 1000, Thorough: 20000, Gen: genC03("rotated-circular-arcs"), Note: "circular arcs whose record carries a rotation (as after Transform)"},
 			{Name: "mild-elliptic-arcs", Quick: 1000, Thorough: 20000, Gen: genC03("mild-elliptic-arcs"), Note: "radii ratio <= 1.5; bound K*t + 2e-3*r (arc-to-cubic error floor, F-C03-ellipse-floor)"},
 			{Name: "mixed", Quick: 1500, Thorough: 30000, Gen: genC03("mixed")},
 			{Name: "grid", Quick: 1000, Thorough: 20000, Gen: genC03("grid")},
